@@ -804,6 +804,25 @@ def check_C04(tier, seed):
             # caching is on throughout: stage B3 predicts the rows of every full evaluation of the history, starting
             # from empty caches after an evaluation that did not run to completion
             qc.add(W, qs, _session_events(b, 2, b3=True), share_vars=rng.random() < 0.7)
+    # an evaluation aborted by the user code of a comparison operand (a method call) at its very first call: nothing has
+    # been cached yet when the abandoned evaluation is cleaned up, and the next evaluation must start from scratch
+    def _cmp_runs_user_code(p):
+        found = [False]
+
+        def f(n):
+            if n.get("k") in ("cmp", "in") and '"mcall"' in json.dumps(n):
+                found[0] = True
+        from .syntax import walk
+        walk(p["cond"], f)
+        return found[0]
+    for nv in (1, 2):
+        callers = [p for p in progs[nv] if _cmp_runs_user_code(p)]
+        for p in rng.sample(callers, min(len(callers), 200 if quick else 4000)):
+            W, doms = _world_and_doms(rng, nv, quick)
+            q = mk_query(p, doms, declare="given")
+            at = rng.choice([1, 1, 2])
+            qc.add(W, [q], [{"op": "raised", "qi": 1, "at": at, "want": "Boom", "how": "close"}, dict(drain_ev(1), b3=True),
+                            dict(drain_ev(1), b3=True)], tag="aborted-at-first-call")
     # pairs of queries over three shared variables that compare variables directly (h == c.ref): what one evaluation
     # binds must not be visible to the next evaluation of another query over the same variables
     shared = run.export("GenQuery", "G3s", "PROG", constants=dict(G="G3s", NV=3, LeafLimit=8, MaxLeaves=2, MaxNot=0, NeedNot=False),
